@@ -111,13 +111,12 @@ def run_range(ctx, seed, tier, lo, hi, tag, timeout_ms, log):
     results, failures, skipped = {}, [], {}
     cur = lo
     attempt = 0
-    xdone = set()
     while cur < hi:
         attempt += 1
         outp = os.path.join(rd, "c06-%s-%d.out" % (tag, attempt))
         if os.path.exists(outp):
             os.remove(outp)
-        rc, o, dt = child(ctx, seed, tier, {"C06_FROM": str(cur), "C06_TO": str(hi), "C06_TIMEOUT_MS": str(timeout_ms), "C06_XDONE": ",".join(sorted(xdone))}, outp, 3600)
+        rc, o, dt = child(ctx, seed, tier, {"C06_FROM": str(cur), "C06_TO": str(hi), "C06_TIMEOUT_MS": str(timeout_ms), "C06_LO": str(lo)}, outp, 3600)
         njobs, res, desc, hang, skp, last_s, ended = parse(outp)
         results.update(res)
         skipped.update(skp)
@@ -144,8 +143,6 @@ def run_range(ctx, seed, tier, lo, hi, tag, timeout_ms, log):
         log.append("child rc=%s inside job %d (%s) after %.1fs" % (rc, last_s, kind, dt))
         f = confirm(ctx, seed, tier, last_s, tag, max(timeout_ms, 2000), o)
         failures.append(f)
-        if "xhang" in f.get("flags", "") or "xbig" in f.get("flags", ""):
-            xdone.add(f["ep"])   # one process-killing input of an expected class per entry point and range is enough
         cur = last_s + 1
     return results, failures, skipped
 
